@@ -26,6 +26,7 @@ import RV.Base.Proto
     csv-of  <Table>             -> ok … | err …                  ofCsv
     hist <0|1> <Result> | <k<n>|f>*  -> per op `T<n> cells…` (rows handed out by a fresh iterator advanced n times)
                                        or `F<len>`, joined by ` ; `, then ` | <Result>` = Result.bindings at the end
+    mhist <0|1> <Result> | <o|n<i>|f>* -> several live iterators: per op `O` / `R cells…` / `X` / `F<len>`, then ` | <Result>`
     const <token>               -> <token>
 -/
 open RV RV.C16 RV.Proto
@@ -191,6 +192,12 @@ def decHOp (w : String) : Option HOp :=
   else if w.startsWith "k" then (w.drop 1).toNat?.map .take
   else none
 
+def decMOp (w : String) : Option MOp :=
+  if w = "f" then some .force
+  else if w = "o" then some .openIt
+  else if w.startsWith "n" then (w.drop 1).toNat?.map .next
+  else none
+
 def withResult (ws : List String) (f : Result → String) : String :=
   match decResult ws with
   | some (r, []) => f r
@@ -252,6 +259,22 @@ def step (_ : Unit) : List String → Unit × String
             go s' os (line :: acc)
         let (s, segs) := go init ops []
         ((), " ; ".intercalate segs ++ " | " ++ encResult (.select vars s.force.mat))
+      | none => ((), "bad-op")
+    | _ => ((), "bad-op")
+  | "mhist" :: lz :: ws =>
+    match decResult ws with
+    | some (.select vars rows, "|" :: ops) =>
+      match ops.mapM decMOp with
+      | some ops =>
+        let init : Multi := if lz = "1" then Multi.lazy rows else Multi.listed rows
+        let (s, outs) := init.run ops
+        let show1 : MOut → String
+          | .opened => "O"
+          | .row r _ => " ".intercalate ("R" :: (alignCells vars.length r).map encCell)
+          | .stop => "X"
+          | .size n => "F" ++ toString n
+          | .bad => "bad"
+        ((), " ; ".intercalate (outs.map show1) ++ " | " ++ encResult (.select vars s.force.mat))
       | none => ((), "bad-op")
     | _ => ((), "bad-op")
   | ["const", w] => ((), w)
